@@ -13,6 +13,11 @@
 //!         tee_worker   the same tee behind a WorkerSink
 //!       The #[aggregate] struct has a Sum, a KeepLast, a Histogram<Duration, SortAndMerge> and a
 //!       Distribution field, a key whose Hash is constant and a String key.
+//!   agg load --scenarios s.ndjson --out trace.ndjson --meta meta.ndjson
+//!       T direction, counting form: 2-3 producers send several 100k cheap entries each into a WorkerSink
+//!       with a 50-200 us flush interval; only milestones are logged (per-producer progress / totals, flush
+//!       requests with the emitted total seen at completion, the drop of the inner sink - Exited or
+//!       WorkerPanic - and the final emitted totals); validated by TLC against WorkerCountTrace.tla.
 //!   agg mutexrace --scenarios s.ndjson --out trace.ndjson --meta meta.ndjson
 //!       T direction, mutex-shared sink: 1-3 merger threads drop CloseAndMergeOnDrop guards of (or merge
 //!       directly into) a MutexSink<Aggregate<Mx>> while the main thread closes parent entries that
@@ -1253,6 +1258,207 @@ fn cmd_mutexrace(a: &HashMap<String, String>) {
     std::process::exit(0);
 }
 
+// ------------------------------------------------------------------------------------------
+// load: sustained high-rate sends into a WorkerSink with a very short flush interval (T direction,
+// counting form: one event per producer milestone / flush request / end, never per entry)
+// ------------------------------------------------------------------------------------------
+
+#[aggregate]
+#[metrics]
+pub struct Ld {
+    #[aggregate(key)]
+    #[metrics(format = ToString)]
+    k: u8,
+    #[aggregate(strategy = Sum)]
+    n: u64,
+    #[aggregate(strategy = Sum)]
+    w: u64,
+}
+
+#[derive(Default)]
+struct LoadCounters {
+    emitted_n: std::sync::atomic::AtomicU64,
+    emitted_w: std::sync::atomic::AtomicU64,
+    merged_n: std::sync::atomic::AtomicU64,
+    flushes: std::sync::atomic::AtomicU64,
+}
+
+/// wrapper around the inner aggregator (lives in the worker thread): counts, and logs its own drop -
+/// `Exited` when the worker left its loop, `WorkerPanic` when the worker thread is unwinding
+struct CountSentinel {
+    inner: KeyedAggregator<Ld>,
+    c: Arc<LoadCounters>,
+    epoch: u64,
+    done: Arc<(Mutex<bool>, Condvar)>,
+}
+impl AggregateSink<LdEntry> for CountSentinel {
+    fn merge(&mut self, entry: LdEntry) {
+        self.c.merged_n.fetch_add(1, std::sync::atomic::Ordering::Relaxed);
+        self.inner.merge(entry);
+    }
+}
+impl FlushableSink for CountSentinel {
+    fn flush(&mut self) {
+        self.c.flushes.fetch_add(1, std::sync::atomic::Ordering::Relaxed);
+        self.inner.flush();
+    }
+}
+impl Drop for CountSentinel {
+    fn drop(&mut self) {
+        use std::sync::atomic::Ordering::SeqCst;
+        if self.epoch == trace::epoch() {
+            let name = if std::thread::panicking() { "WorkerPanic" } else { "Exited" };
+            trace::evi(name, &[("merged", self.c.merged_n.load(SeqCst) as i64), ("en", self.c.emitted_n.load(SeqCst) as i64)]);
+        }
+        *self.done.0.lock().unwrap() = true;
+        self.done.1.notify_all();
+    }
+}
+/// downstream sink: adds the count and weight of every emitted aggregate to the totals
+struct CountEmit {
+    c: Arc<LoadCounters>,
+}
+impl AnyEntrySink for CountEmit {
+    fn append_any(&self, entry: impl Entry + Send + 'static) {
+        let e = to_test_entry(entry);
+        let get = |name: &str| e.metrics.get(name).map(|m| m.distribution.iter().map(|o| match o {
+            Observation::Unsigned(v) => *v,
+            Observation::Floating(f) => *f as u64,
+            Observation::Repeated { total, .. } => *total as u64,
+            _ => 0,
+        }).sum::<u64>()).unwrap_or(0);
+        // weight first: a reader that sees the count sees at least the matching weight
+        self.c.emitted_w.fetch_add(get("w"), std::sync::atomic::Ordering::SeqCst);
+        self.c.emitted_n.fetch_add(get("n"), std::sync::atomic::Ordering::SeqCst);
+    }
+    fn flush_async(&self) -> metrique_writer_core::sink::FlushWait {
+        metrique_writer_core::sink::FlushWait::ready()
+    }
+}
+
+#[derive(serde::Deserialize, Clone, Debug)]
+struct LoadProd {
+    n: u64,
+    /// flush().await after this many sends (0 = never)
+    #[serde(default)]
+    flush_after: u64,
+    #[serde(default)]
+    via_guard: bool,
+}
+#[derive(serde::Deserialize, Clone, Debug)]
+struct LoadScen {
+    id: u64,
+    producers: Vec<LoadProd>,
+    nk: u64,
+    interval_us: u64,
+    #[serde(default)]
+    seed: u64,
+    /// a flush().await by the main handle after the producers are done, before it is dropped
+    #[serde(default)]
+    final_flush: bool,
+}
+
+fn run_load(sc: &LoadScen) {
+    use std::sync::atomic::Ordering::SeqCst;
+    trace::set_epoch(sc.id);
+    let np = sc.producers.len();
+    trace::ev(json!({"ev": "Reset", "handles": (np + 1) as i64, "producers": np as i64, "scenario": sc.id as i64}));
+    let c = Arc::new(LoadCounters::default());
+    let done = Arc::new((Mutex::new(false), Condvar::new()));
+    let inner = KeyedAggregator::<Ld>::new(BoxEntrySink::new(CountEmit { c: c.clone() }));
+    let w = WorkerSink::new(CountSentinel { inner, c: c.clone(), epoch: sc.id, done: done.clone() }, Duration::from_micros(sc.interval_us));
+    let start = Arc::new(std::sync::Barrier::new(np + 1));
+    let mut threads = Vec::new();
+    for (pi, p) in sc.producers.iter().enumerate() {
+        let p = p.clone();
+        let pid = (pi + 1) as i64;
+        let h = w.clone();
+        let start = start.clone();
+        let nk = sc.nk;
+        let c = c.clone();
+        let mut rng = util::rng(sc.seed ^ (pi as u64 + 1));
+        threads.push(std::thread::spawn(move || {
+            start.wait();
+            let step = (p.n / 8).max(1);
+            let mut wsum = 0u64;
+            for j in 1..=p.n {
+                let wt = 1 + (rng.random::<u32>() % 7) as u64;
+                let input = Ld { k: (rng.random::<u32>() as u64 % nk) as u8, n: 1, w: wt };
+                if p.via_guard {
+                    drop(input.close_and_merge(h.clone()));
+                } else {
+                    h.send(input.close());
+                }
+                wsum += wt;
+                if j % step == 0 && j < p.n {
+                    // milestone: at least j sends of this producer have returned
+                    trace::evi("Progress", &[("p", pid), ("n", j as i64)]);
+                }
+                if p.flush_after > 0 && j == p.flush_after {
+                    trace::evi("Progress", &[("p", pid), ("n", j as i64)]);
+                    trace::evi("FlushReq", &[("q", pid)]);
+                    match util::catch(std::panic::AssertUnwindSafe(|| block_on_timeout(h.flush(), BUDGET))) {
+                        Ok(Some(())) => trace::evi("FlushDone", &[("q", pid), ("en", c.emitted_n.load(SeqCst) as i64)]),
+                        Ok(None) => trace::evi("FlushTimeout", &[("q", pid)]),
+                        Err(_) => trace::evi("FlushFailed", &[("q", pid)]),
+                    };
+                }
+            }
+            trace::evi("Sent", &[("p", pid), ("n", p.n as i64), ("w", wsum as i64)]);
+            trace::evi("HandleDrop", &[("p", pid)]);
+            drop(h);
+        }));
+    }
+    start.wait();
+    for t in threads {
+        let _ = t.join();
+    }
+    if sc.final_flush {
+        trace::evi("FlushReq", &[("q", 0)]);
+        match util::catch(std::panic::AssertUnwindSafe(|| block_on_timeout(w.flush(), BUDGET))) {
+            Ok(Some(())) => trace::evi("FlushDone", &[("q", 0), ("en", c.emitted_n.load(SeqCst) as i64)]),
+            Ok(None) => trace::evi("FlushTimeout", &[("q", 0)]),
+            Err(_) => trace::evi("FlushFailed", &[("q", 0)]),
+        };
+    }
+    trace::evi("HandleDrop", &[("p", 0)]);
+    drop(w);
+    if !wait_flag(&done, BUDGET) {
+        trace::evi("ExitTimeout", &[]);
+    } else {
+        trace::evi("Final", &[("en", c.emitted_n.load(SeqCst) as i64), ("ew", c.emitted_w.load(SeqCst) as i64)]);
+        trace::evi("Quiesce", &[]);
+    }
+}
+
+fn cmd_load(a: &HashMap<String, String>) {
+    let scen = util::read_ndjson(util::arg_str(a, "scenarios", ""));
+    let mut out = std::io::BufWriter::new(std::fs::File::create(util::arg_str(a, "out", "")).unwrap());
+    let mut meta = std::io::BufWriter::new(std::fs::File::create(util::arg_str(a, "meta", "")).unwrap());
+    let mut line = 1usize;
+    for v in scen {
+        let sc: LoadScen = serde_json::from_value(v.clone()).unwrap();
+        let t = Instant::now();
+        run_load(&sc);
+        let evs = trace::take();
+        trace::append_ndjson(&mut out, &evs).unwrap();
+        let fin = evs.iter().find(|e| e["ev"] == "Final");
+        let ex = evs.iter().find(|e| e["ev"] == "Exited" || e["ev"] == "WorkerPanic");
+        let m = json!({"id": sc.id, "first_line": line, "last_line": line + evs.len() - 1, "events": evs.len(),
+                       "sent": sc.producers.iter().map(|p| p.n).sum::<u64>(),
+                       "emitted": fin.map(|e| e["en"].clone()).unwrap_or(Value::Null),
+                       "merged": ex.map(|e| e["merged"].clone()).unwrap_or(Value::Null),
+                       "worker_panicked": evs.iter().any(|e| e["ev"] == "WorkerPanic"),
+                       "wall_ms": t.elapsed().as_millis() as u64, "scenario": v});
+        line += evs.len();
+        serde_json::to_writer(&mut meta, &m).unwrap();
+        meta.write_all(b"\n").unwrap();
+    }
+    out.flush().unwrap();
+    meta.flush().unwrap();
+    std::process::exit(0);
+}
+
 fn main() {
     std::panic::set_hook(Box::new(|_| {}));
     let (cmd, a) = util::args();
@@ -1260,8 +1466,9 @@ fn main() {
         "replay" => cmd_replay(&a),
         "record" => cmd_record(&a),
         "mutexrace" => cmd_mutexrace(&a),
+        "load" => cmd_load(&a),
         _ => {
-            eprintln!("usage: agg replay|record|mutexrace ...");
+            eprintln!("usage: agg replay|record|mutexrace|load ...");
             std::process::exit(2);
         }
     }
